@@ -6,6 +6,7 @@ import sys
 sys.path.insert(0, os.path.join(os.path.dirname(os.path.abspath(__file__)), "..", "lib"))
 import vf
 import lanes
+import prog
 
 TYPES = [("i8", 1, "i"), ("u8", 1, "i"), ("i16", 2, "i"), ("u16", 2, "i"), ("i32", 4, "i"), ("u32", 4, "i"),
          ("i64", 8, "i"), ("u64", 8, "i"), ("f32", 4, "f"), ("f64", 8, "f")]
@@ -128,6 +129,10 @@ def body(ctx):
     events = split_src(events)
     ctx.log("events: %d" % len(events))
     lanes.validate(ctx, "T_Bool.tla", events, "c03", plan_lines=plan)
+
+    # straight-line programs over live batch variables (spec/Prog.tla): every instruction reads what earlier instructions left in the
+    # registers; the trace specification carries the register file itself and binds only the result of each step
+    prog.run(ctx, "c03", prog.ITYPES + prog.FTYPES, ctx.q(24, 300), ctx.q(16, 40))
     ex = not ctx.quick
     return dict(exhaustive=False,
                 rule="comparisons: Lattice(T)^2 incl. NaN/+-0/MIN/MAX + random near-equal pairs for all 10 types; select with 0/all-ones/single-bit mask lanes; "
